@@ -85,8 +85,8 @@ def c03() -> List[V]:
 
 def c04() -> List[V]:
     return [
-        V("an-reset-after-loop-only", S, "An.evaluate", "        finally:\n            results.close()\n            # also when the iterator is closed or dropped before it is exhausted, or user code raised.\n            self._reset_cache_()",
-          "        finally:\n            results.close()\n        self._reset_cache_()", rule="RESET-ALL-EXITS"),
+        V("an-reset-after-loop-only", S, "An.evaluate", "                results.close()\n            # also when the iterator is closed or dropped before it is exhausted, or user code raised.\n            self._reset_cache_()",
+          "                results.close()\n        self._reset_cache_()", rule="RESET-ALL-EXITS"),
         V("the-reset-on-success-only", S, "The.evaluate", "        finally:\n            # also when no solution or multiple solutions were found, or user code raised.\n            self._reset_cache_()",
           "        finally:\n            pass\n        self._reset_cache_()", rule="RESET-ALL-EXITS"),
         V("an-no-rollback", S, "An.evaluate", "            self._clear_result_caches_()\n            raise", "            raise",
@@ -244,7 +244,10 @@ def c14() -> List[V]:
           "    Variable._cache_[symbolic_cls].insert(kwargs, HashedValue(instance, id(instance)), index=index)",
           "    if kwargs or not index:\n        Variable._cache_[symbolic_cls].insert(kwargs, HashedValue(instance, id(instance)), index=index)", rule="REG-MUST"),
         V("registered-twice", "predicate", "instantiate_class_and_update_cache",
-          "    return instance", "    Variable._cache_[symbolic_cls].insert({}, HashedValue(instance), index=False)\n    return instance", rule="REG-MUST"),
+          "    Variable._cache_[symbolic_cls].insert(kwargs, HashedValue(instance, id(instance)), index=index)\n    return instance",
+          "    Variable._cache_[symbolic_cls].insert(kwargs, HashedValue(instance, id(instance)), index=index)\n    Variable._cache_[symbolic_cls].insert({}, HashedValue(instance), index=False)\n    return instance", rule="REG-MUST"),
+        V("object-of-another-type-registered", "predicate", "instantiate_class_and_update_cache",
+          "        if not isinstance(instance, symbolic_cls):\n", "        if instance is None:\n", rule="REG-ONLY-INSTANCES"),
         V("lookup-superclasses", "cache_data", "get_cache_keys_for_class_", "issubclass(t, clazz)", "issubclass(clazz, t)", rule="REG-LOOKUP"),
         V("lookup-exact-class", "cache_data", "get_cache_keys_for_class_", "isinstance(t, type) and issubclass(t, clazz)", "t is clazz", rule="REG-LOOKUP"),
         V("symbolic-arm-registers", "predicate", "symbol.symbolic_new", "        node = SymbolicExpression._current_parent_()",
@@ -1504,7 +1507,7 @@ def _batch9() -> Dict[str, List[V]]:
         V("not-asks-the-expression-for-the-flag", S, "Not", "    elif not hasattr(type(operand), '_invert_'):", "    elif not hasattr(operand, '_invert_'):", rule="NEG-HONOURED"),
     ]
     ctx = [
-        V("fresh-context-stack-per-step", S, "An.evaluate", "with symbolic_mode(mode=None, _evaluation_stack=blocks_opened_by_user_code):", "with symbolic_mode(mode=None):", rule="EVAL-NO-CONTEXT"),
+        V("fresh-context-stack-per-step", S, "An.evaluate", "with symbolic_mode(mode=None, _evaluation_stack=blocks_opened_by_user_code):\n                    try:", "with symbolic_mode(mode=None):\n                    try:", rule="EVAL-NO-CONTEXT"),
         V("user-class-called-under-the-current-mode", S, "Variable._call_user_code_", "        with symbolic_mode(mode=None):\n            return function(**kwargs)", "        return function(**kwargs)", rule="EVAL-NO-CONTEXT"),
     ]
     concl = [
@@ -1654,7 +1657,10 @@ def _batch10() -> Dict[str, List[V]]:
           rule="STACK-READ-LIVE"),
         V("context-stack-as-a-default-argument", S, "SymbolicExpression._current_parent_", "    def _current_parent_(cls) -> Optional[SymbolicExpression]:\n",
           "    def _current_parent_(cls, stack=_initial_stack_) -> Optional[SymbolicExpression]:\n", rule=None, kind="twin"),
-    ][:1]
+    ][:1] + [
+        V("an-closed-in-the-callers-environment", S, "An.evaluate", "            with symbolic_mode(mode=None, _evaluation_stack=blocks_opened_by_user_code):\n                results.close()\n",
+          "            results.close()\n", rule="MODE-OFF-DOM"),
+    ]
     memo = [
         V("flatten-elements-memoised-per-parent", S, "Flatten", "    def _apply_mapping_(self, value: HashedValue) -> Iterable[HashedValue]:\n        inner = value.value\n        # Treat non-iterables as singletons\n        if not is_iterable(inner):\n            inner_iter = [inner]\n        else:\n            inner_iter = inner\n        for inner_v in inner_iter:\n            yield HashedValue(inner_v)\n",
           "    def _apply_mapping_(self, value: HashedValue) -> Iterable[HashedValue]:\n        yield from self._elements_of_(value)\n\n    @lru_cache(maxsize=None)\n    def _elements_of_(self, value: HashedValue):\n        inner = value.value\n        if not is_iterable(inner):\n            inner = [inner]\n        return tuple(HashedValue(inner_v) for inner_v in inner)\n",
